@@ -36,6 +36,51 @@ MC_REFS = {
 }
 
 
+def check_product_law(s, rule="C15.2", methods=None):
+    """MultiCategorical: every method is the per-component law combined over the components in order (one key split per component)."""
+    self_ = ("param", "self")
+    # ---------------------------------------------------------------- C15.2
+    b = s.builder(inline=set())
+    nz = Normalizer(b)
+    bind = {"self": self_, "value": ("param", "value"), "key": ("param", "key")}
+    for meth, expr in MC_REFS.items():
+        if methods is not None and meth not in methods:
+            continue
+        paths = live(s.paths(b, "MultiCategorical", meth))
+        if len(paths) != 1:
+            raise AnalysisError(f"MultiCategorical.{meth}: expected one non-raising path, found {len(paths)}")
+        s.eq(rule, f"MultiCategorical.{meth}", nz, paths[0].ret, s.ref(b, expr, bind),
+             f"{meth} == {expr.replace('self.distribution', 'components')[:110]}", s.loc("MultiCategorical", meth), key=f"product-{meth}",
+             necessary_for="a product law has log-probability and entropy equal to the sums over its independent components, in component order")
+    p = one(s.paths(b, "MultiCategorical", "sample_and_log_prob"), "MultiCategorical.sample_and_log_prob")
+    ref = s.refprog(b, """
+pairs = tuple(d.sample_and_log_prob(k) for d, k in zip(self.distribution, jax.random.split(key, len(self.action_dims))))
+samples = jnp.stack(tuple(p[0] for p in pairs), axis=-1)
+logps = jnp.sum(jnp.stack(tuple(p[1] for p in pairs), axis=-1), axis=-1)
+out = (samples, logps)
+""", bind)
+    s.eq(rule, "MultiCategorical.sample_and_log_prob", nz, p.ret, ref["out"],
+         "sample_and_log_prob == (stack of element 0, sum of stacked element 1) of ONE per-component sample_and_log_prob call each", s.loc("MultiCategorical", "sample_and_log_prob"),
+         key="product-sample-and-log-prob", necessary_for="sample_and_log_prob returns the log-probability of the sample it returns")
+    # flat split
+    bs = s.builder(inline=set())
+    nzs = Normalizer(bs)
+    flat = [p_ for p_ in live(s.paths(bs, "MultiCategorical", "_split_or_unpack_params"))
+            if any(isinstance(t, tuple) and t[0] == "call" and t[1] == ("global", "isinstance") and not v for t, v in p_.conds)]
+    s.ob(rule, "MultiCategorical._split_or_unpack_params", len(flat) == 1, "one accepting path for flat parameters", s.loc("MultiCategorical", "_split_or_unpack_params"),
+         key="flat-paths", detail=str(len(flat)))
+    if len(flat) == 1:
+        want = s.ref(bs, "(tuple(jnp.split(jnp.asarray(params), jnp.cumsum(jnp.asarray(action_dims[:-1])), axis=-1)), action_dims)",
+                     {"params": ("param", "params"), "action_dims": ("param", "action_dims")})
+        s.eq(rule, "MultiCategorical._split_or_unpack_params[flat]", nzs, flat[0].ret, want,
+             "flat parameters are split at cumsum(action_dims[:-1]) on the last axis and action_dims is returned unchanged", s.loc("MultiCategorical", "_split_or_unpack_params"),
+             key="flat-split", necessary_for="flat and sequence parameterisations describe the same product law")
+        guards = [nzs.canon(t) for t, v in flat[0].conds]
+        gwant = nzs.canon(s.ref(bs, "jnp.asarray(params).shape[-1] != int(sum(action_dims))", {"params": ("param", "params"), "action_dims": ("param", "action_dims")}))
+        s.ob(rule, "MultiCategorical._split_or_unpack_params[flat]", gwant in guards, "the total width is checked against sum(action_dims)", s.loc("MultiCategorical", "_split_or_unpack_params"),
+             key="flat-width-guard", detail="; ".join(show_term(g, 100) for g in guards))
+
+
 def check(s):
     P = s.prog
     self_ = ("param", "self")
@@ -60,44 +105,7 @@ def check(s):
             n += 1
     s.ob("C15.1", "wrapper-classes", len([c for c in P.concrete_exported("lerax.distribution")]) >= 7 and n >= 35,
          "the seven exported distribution classes are covered", "", key="class-count", detail=f"{len(wrappers)} wrapper subclasses")
-    # ---------------------------------------------------------------- C15.2
-    b = s.builder(inline=set())
-    nz = Normalizer(b)
-    bind = {"self": self_, "value": ("param", "value"), "key": ("param", "key")}
-    for meth, expr in MC_REFS.items():
-        paths = live(s.paths(b, "MultiCategorical", meth))
-        if len(paths) != 1:
-            raise AnalysisError(f"MultiCategorical.{meth}: expected one non-raising path, found {len(paths)}")
-        s.eq("C15.2", f"MultiCategorical.{meth}", nz, paths[0].ret, s.ref(b, expr, bind),
-             f"{meth} == {expr.replace('self.distribution', 'components')[:110]}", s.loc("MultiCategorical", meth), key=f"product-{meth}",
-             necessary_for="a product law has log-probability and entropy equal to the sums over its independent components, in component order")
-    p = one(s.paths(b, "MultiCategorical", "sample_and_log_prob"), "MultiCategorical.sample_and_log_prob")
-    ref = s.refprog(b, """
-pairs = tuple(d.sample_and_log_prob(k) for d, k in zip(self.distribution, jax.random.split(key, len(self.action_dims))))
-samples = jnp.stack(tuple(p[0] for p in pairs), axis=-1)
-logps = jnp.sum(jnp.stack(tuple(p[1] for p in pairs), axis=-1), axis=-1)
-out = (samples, logps)
-""", bind)
-    s.eq("C15.2", "MultiCategorical.sample_and_log_prob", nz, p.ret, ref["out"],
-         "sample_and_log_prob == (stack of element 0, sum of stacked element 1) of ONE per-component sample_and_log_prob call each", s.loc("MultiCategorical", "sample_and_log_prob"),
-         key="product-sample-and-log-prob", necessary_for="sample_and_log_prob returns the log-probability of the sample it returns")
-    # flat split
-    bs = s.builder(inline=set())
-    nzs = Normalizer(bs)
-    flat = [p_ for p_ in live(s.paths(bs, "MultiCategorical", "_split_or_unpack_params"))
-            if any(isinstance(t, tuple) and t[0] == "call" and t[1] == ("global", "isinstance") and not v for t, v in p_.conds)]
-    s.ob("C15.2", "MultiCategorical._split_or_unpack_params", len(flat) == 1, "one accepting path for flat parameters", s.loc("MultiCategorical", "_split_or_unpack_params"),
-         key="flat-paths", detail=str(len(flat)))
-    if len(flat) == 1:
-        want = s.ref(bs, "(tuple(jnp.split(jnp.asarray(params), jnp.cumsum(jnp.asarray(action_dims[:-1])), axis=-1)), action_dims)",
-                     {"params": ("param", "params"), "action_dims": ("param", "action_dims")})
-        s.eq("C15.2", "MultiCategorical._split_or_unpack_params[flat]", nzs, flat[0].ret, want,
-             "flat parameters are split at cumsum(action_dims[:-1]) on the last axis and action_dims is returned unchanged", s.loc("MultiCategorical", "_split_or_unpack_params"),
-             key="flat-split", necessary_for="flat and sequence parameterisations describe the same product law")
-        guards = [nzs.canon(t) for t, v in flat[0].conds]
-        gwant = nzs.canon(s.ref(bs, "jnp.asarray(params).shape[-1] != int(sum(action_dims))", {"params": ("param", "params"), "action_dims": ("param", "action_dims")}))
-        s.ob("C15.2", "MultiCategorical._split_or_unpack_params[flat]", gwant in guards, "the total width is checked against sum(action_dims)", s.loc("MultiCategorical", "_split_or_unpack_params"),
-             key="flat-width-guard", detail="; ".join(show_term(g, 100) for g in guards))
+    check_product_law(s)
     # ---------------------------------------------------------------- C15.3
     sib = {}
     for cls, multi in (("SquashedNormal", False), ("SquashedMultivariateNormalDiag", True)):
